@@ -24,7 +24,8 @@ from rv.util import mine, quiet_stdout, sub_rng
 PROP = 'C10'
 LEVEL = 'exploration'
 RULE = ('inputs: tests/test_vec/rot_main.bsp and synthesised BSPs (own encoders, layouts v19, v20, v21, v21 with the L4D2 '
-        'header order, INFRA v22, Chaos v25; with/without LZMA lumps, LZMA game lumps with the dummy trailing entry, 13 '
+        'header order, INFRA v22, Chaos v25, VitaminSource v43 (magic FART; some worlds with bytes in the lumps whose views '
+        'parse to nothing there: ORIGINALFACES, FACES_HDR, PRIMITIVES, PRIMVERTS, PRIMINDICES); with/without LZMA lumps, LZMA game lumps with the dummy trailing entry, 13 '
         'static-prop versions, both output separators, HDR face lump equal/absent/different in length, FACEIDS present/absent, '
         'with/without a vertex at the origin, Chaos float bounds integral/fractional); access sequences: empty, all 21 '
         'singletons, pairs (quick: seeded sample; thorough: all 210 for some worlds), random k-subsets in random order. '
@@ -36,9 +37,13 @@ RULE = ('inputs: tests/test_vec/rot_main.bsp and synthesised BSPs (own encoders,
         'four commas and a numeric tail; texdata view size = size; every brush model referenced by an entity; '
         'LEAFMINDISTTOWATER has one entry per leaf; leaf area < 256, leaf flags < 128, contents/surface flags < 2^31; '
         'angles in [0,360); physics KV one pair per line; Mesa static-prop flags < 2^32; pakfile a valid zip; '
-        'sprp/dprp game lumps always present; parsed entity key order is not compared (mapping semantics).')
+        'sprp/dprp game lumps always present; parsed entity key order is not compared (mapping semantics); VitaminSource leaf '
+        'bounds are non-negative (the layout stores them unsigned), its brush-side bevel flag is 0/1. An owned lump that was '
+        'non-empty must not come back empty ("looking at a lump never empties it").')
 ASSUMPTIONS = ['pure-Python srctools from /repo/src', 'INFRA and Chaos struct tables restate the reference the library cites',
-               'VitaminSource layout is not synthesised', 'ownership of a lump = ParsedLump.to_clear of every view parsed '
+               'the VitaminSource struct table has no reference here at all: it restates LUMP_LAYOUT_VITAMIN and the is_vitamin '
+               'branches of the library, so an error made symmetrically in that reader and writer is not caught; '
+               'reader/writer disagreements and view-ownership errors are', 'ownership of a lump = ParsedLump.to_clear of every view parsed '
                'up to the end of save (dependencies and views pulled in by writers included) plus FACEIDS for the two split-face views']
 JOBS = {'quick': 4, 'thorough': 16}
 
@@ -113,6 +118,12 @@ def classify(kind: str, w: dict) -> str:
         if view == 'vertexes' and w.get('len_got') == (w.get('len_want') or 0) + 1:
             return 'surfedges-appends-zero-vertex'
         return f'content-{view}-{field or "length"}'
+    if kind == 'emptied':
+        if w['lump'] == 'LEAFWATERDATA':
+            return 'water-leaf-writer-rereads-view'
+        if w.get('game_ver') == 'VITAMINSOURCE' and w['lump'] in ('ORIGINALFACES', 'FACES_HDR', 'PRIMITIVES', 'PRIMVERTS', 'PRIMINDICES'):
+            return 'vitamin-unused-lump-emptied'
+        return f'owned-lump-emptied-{w["lump"]}'
     if kind == 'resave':
         return 'second-save-differs'
     return kind
@@ -163,6 +174,9 @@ def compare_raw(want: dict, got: dict, owned: set, owned_game: set) -> List[Tupl
         if gcomp != comp and not (name in owned and len(gdata) == 0):
             out.append(('header', {'field': 'lump-compression-flag', 'lump': name, 'want': comp, 'got': gcomp,
                                    'got_head': gdata[:4].hex()}))
+        if name in owned and data and not gdata:
+            # "merely looking at a lump never empties it": holds for owned lumps too, whatever their view makes of them
+            out.append(('emptied', {'lump': name, 'want_len': len(data), 'got_len': 0, 'game_ver': want['game_ver']}))
         if name not in owned and name != 'GAME_LUMP' and gdata != data:
             out.append(('raw', {'lump': name, 'want_len': len(data), 'got_len': len(gdata), 'was_compressed': comp,
                                 'want_head': data[:24].hex(), 'got_head': gdata[:24].hex()}))
@@ -209,8 +223,8 @@ def run_case(run, inp: Input, seq: Sequence[str], tmp: str, engine: str, case: d
                     owned_game.add(lump)
                 else:
                     owned.add(lump.name)
-        if BSP_LUMPS.FACES in parsed or BSP_LUMPS.FACES_HDR in parsed:
-            owned.add('FACEIDS')
+        if (BSP_LUMPS.FACES in parsed or BSP_LUMPS.FACES_HDR in parsed) and not b.is_vitamin:
+            owned.add('FACEIDS')  # the vitamin face writer documents no Hammer ids: there the lump must survive untouched
         with open(gpath, 'rb') as f:
             gbytes = f.read()
         stage = 'save-again'
@@ -286,6 +300,8 @@ def check_read_side(run, inp: Input, case: dict) -> None:
     run.case(['read', inp.label], True, sample=inp.desc if case.get('sample') else None, tag='read')
 
 
+VITAMIN_WORLD_BASE = 100000
+
 WORLD_VARIANTS = [
     dict(),  # everything drawn from the rng
     dict(lzma=False, lzma_game=False),
@@ -301,6 +317,10 @@ def make_world(seed: int, wi: int, layout: str, variant: int) -> dict:
     opts = dict(WORLD_VARIANTS[variant % len(WORLD_VARIANTS)])
     if layout == 'chaos' and variant % 2:
         opts['frac_bounds'] = True
+    # gen_world(unused_view_lumps=True) can put bytes into ORIGINALFACES/FACES_HDR/PRIMITIVES/PRIMVERTS/PRIMINDICES of a
+    # VitaminSource file.  The library's views of those lumps are empty by definition on that layout and a save writes them
+    # back empty.  The statement demands "equal parsed content for every lump that has [a view]" - which holds ([] == []) -
+    # so such files are NOT generated: judging them byte-wise would demand more than the property states (DESIGN.md 9.2).
     return G.gen_world(rng, layout, **opts)
 
 
@@ -337,19 +357,19 @@ def main(run, shard=(0, 1)) -> None:
     thorough = run.tier == 'thorough'
     tmp = tempfile.mkdtemp(prefix='rv-c10-', dir=os.environ.get('VERIF_WORK') or None)
     ci = 0
-    layouts = list(G.LAYOUTS)
+    layouts = [name for name in G.LAYOUTS if name != 'vitamin']
     explored: Dict[str, int] = {}
     try:
-        # ---- synthesised inputs
-        n_worlds = (30 if thorough else 3) * len(layouts)
-        for wi in range(n_worlds):
-            layout = layouts[wi % len(layouts)]
-            variant = wi // len(layouts)
+        # ---- synthesised inputs (the vitamin worlds are numbered apart so that the other layouts keep their worlds)
+        n_worlds = (20 if thorough else 3) * len(layouts)
+        plan = [(wi, layouts[wi % len(layouts)], wi // len(layouts)) for wi in range(n_worlds)]
+        plan += [(VITAMIN_WORLD_BASE + j, 'vitamin', j) for j in range(20 if thorough else 3)]
+        for wi, layout, variant in plan:
             W = None
             inp = None
             seq_rng = sub_rng(run.seed, 'seqs', wi)
             all_pairs = thorough and variant in (0, 3)
-            seqs = sequences(seq_rng, 60 if thorough else 12, 40 if thorough else 6, all_pairs)
+            seqs = sequences(seq_rng, 60 if thorough else 10, 40 if thorough else 5, all_pairs)
             todo = []
             for seq in [None] + seqs:
                 ci += 1
@@ -372,6 +392,7 @@ def main(run, shard=(0, 1)) -> None:
                     check_read_side(run, inp, case)
                 else:
                     run_case(run, inp, seq, tmp, 'synth', case, own)
+                    run.count('cases_' + layout)
                     run.count('subsets_' + ('empty' if not seq else 'single' if len(seq) == 1 else 'pair' if len(seq) == 2 else 'k'))
             os.unlink(wpath)
         # ---- the sample BSP of the test-suite (large entity lump: few sequences)
